@@ -180,6 +180,7 @@ def op_cases(draw, ops=None, dtypes=None, constraint=None, unsupported_rate=0.0,
     c["seedA"] = draw(seeds); c["seedB"] = draw(seeds); c["seedG"] = draw(seeds)
     c["noncontig"] = draw(st.sampled_from([False, False, False, "transposed", "expanded"]))  # operand memory layout (same values)
     c["positional"] = draw(st.integers(0, 3)) == 0  # every argument of the library call passed positionally (signature order)
+    c["up_layout"] = draw(st.sampled_from(["dense", "dense", "dense", "partial-reduction"]))  # memory layout of the upstream gradient
     # the second data draw uses its own value profile: a scale that depends on magnitudes / sparsity is exposed
     c["profB"] = draw(st.sampled_from(profiles))
     if unsupported_rate and op in UNSUPPORTED and draw(st.floats(0, 1)) < unsupported_rate:
@@ -525,6 +526,10 @@ def probe(c: dict, want_bwd: bool = True, seeds: Optional[List[int]] = None, ups
             gs: Dict[str, float] = {}
             for gi in range(upstream):
                 gup = rt(tuple(yu.shape), c["seedG"], "normal", yu.dtype, salt=1 + 2 * gi + si)
+                if c.get("up_layout") == "partial-reduction" and yu.dim() >= 2:
+                    # the gradient of a partial reduction (y.sum(dim=k)): constant along one dimension, stride 0 there
+                    k_ = c["seedG"] % yu.dim()
+                    gup = gup.narrow(k_, 0, 1).expand(yu.shape)
                 try:
                     gr = torch.autograd.grad(yr, tr, gup, allow_unused=True, retain_graph=True)
                 except Exception:  # noqa: BLE001
@@ -642,4 +647,10 @@ def class_labels(c: dict) -> List[str]:
         labs.append(f"constraint={c['constraint']}")
     if op == "sdpa":
         labs.append(f"sdpa:{c['mode']}")
+    if c.get("up_layout", "dense") != "dense":
+        labs.append("upstream=" + c["up_layout"])
+    if c.get("noncontig"):
+        labs.append(f"layout={c['noncontig']}")
+    if c.get("positional"):
+        labs.append("positional-call")
     return labs
